@@ -157,6 +157,7 @@ type Sim struct {
 	kick    chan struct{}
 	seq     int64 // global event sequence number for history stamps
 	selN    int64 // select statements executed so far (selectseam.go)
+	randN   int64 // random values drawn so far (randseam.go)
 
 	res     *Result
 	current *Task
